@@ -358,6 +358,101 @@ Theorem c11_sim_experiment_no_hash_order :
 Proof. by_check. Qed.
 Print Assumptions c11_sim_experiment_no_hash_order.
 
+
+(* ==== seed flow ============================================================================================== *)
+(* c11_seed_flow_<cfg>: in the code reachable from the configuration's entry points
+     - every generator construction RandomState(x) / default_rng(x) has a seed-derived argument (an int constant, or
+       an expression naming a *seed* value such as random_seed, master_seed, self.random_seed_generator(); a
+       seed-named parameter that may be None must be tested) and every generator-named attribute is bound to a
+       generator-valued expression                                              (effect UnseededGenerator),
+     - every draw (.rand/.randint/.uniform/.normal/.choice/.shuffle/.permutation/...) goes through a receiver
+       that is generator-valued by construction or by name (…random_state…, rng)   (effect UnknownRngReceiver),
+     - no call leaves the random_state parameter of a callee that has an ambient fallback (default np.random,
+       `if random_state is None: random_state = np.random`, or forwarding to such a callee) to its default
+                                                                                 (effect RandomStateOmitted);
+   together with c11_no_ambient_rng_<cfg> (no module-level np.random / random call is reachable): every random
+   draw reachable from the entry points goes through a generator that is seeded, transitively, from random_seed.
+   Naming-convention based (syntactic); the twin-run recorder validates it behaviourally. *)
+Definition allow_seed_flow_gp : list (string * eff) := [
+  (* GaussProcEstimator._draw_fantasy_values picks `self._gpmodel.sample_joint` / `.sample_marginals` as a VALUE
+     and calls it two lines later; self._gpmodel is a GaussianProcessModel, whose methods of these names have no
+     random_state parameter and pass random_state=self._random_state on.  The by-name resolution cannot tell them
+     from PosteriorState.sample_*; an actual call without random_state is a different site and not covered *)
+  ("syne_tune.optimizer.schedulers.searchers.bayesopt.models.gp_model.GaussProcEstimator._draw_fantasy_values/2 mention of .sample_joint ; mention of .sample_marginals", RandomStateOmitted)
+].
+Theorem c11_seed_flow_fifo_random :
+  NoReachableEffect edges effs off_fifo_random roots_fifo_random seed_flow allow_none.
+Proof. by_check. Qed.
+Print Assumptions c11_seed_flow_fifo_random.
+Theorem c11_seed_flow_fifo_grid :
+  NoReachableEffect edges effs off_fifo_grid roots_fifo_grid seed_flow allow_none.
+Proof. by_check. Qed.
+Print Assumptions c11_seed_flow_fifo_grid.
+Theorem c11_seed_flow_fifo_rea :
+  NoReachableEffect edges effs off_fifo_rea roots_fifo_rea seed_flow allow_none.
+Proof. by_check. Qed.
+Print Assumptions c11_seed_flow_fifo_rea.
+Theorem c11_seed_flow_hyperband_random :
+  NoReachableEffect edges effs off_hyperband_random roots_hyperband_random seed_flow allow_none.
+Proof. by_check. Qed.
+Print Assumptions c11_seed_flow_hyperband_random.
+Theorem c11_seed_flow_synchb_random :
+  NoReachableEffect edges effs off_synchb_random roots_synchb_random seed_flow allow_none.
+Proof. by_check. Qed.
+Print Assumptions c11_seed_flow_synchb_random.
+Theorem c11_seed_flow_dehb :
+  NoReachableEffect edges effs off_dehb roots_dehb seed_flow allow_none.
+Proof. by_check. Qed.
+Print Assumptions c11_seed_flow_dehb.
+Theorem c11_seed_flow_pbt :
+  NoReachableEffect edges effs off_pbt roots_pbt seed_flow allow_none.
+Proof. by_check. Qed.
+Print Assumptions c11_seed_flow_pbt.
+Theorem c11_seed_flow_msr :
+  NoReachableEffect edges effs off_msr roots_msr seed_flow allow_none.
+Proof. by_check. Qed.
+Print Assumptions c11_seed_flow_msr.
+Theorem c11_seed_flow_fifo_bayesopt :
+  NoReachableEffect edges effs off_fifo_bayesopt roots_fifo_bayesopt seed_flow allow_seed_flow_gp.
+Proof. by_check. Qed.
+Print Assumptions c11_seed_flow_fifo_bayesopt.
+Theorem c11_seed_flow_hyperband_bayesopt :
+  NoReachableEffect edges effs off_hyperband_bayesopt roots_hyperband_bayesopt seed_flow allow_seed_flow_gp.
+Proof. by_check. Qed.
+Print Assumptions c11_seed_flow_hyperband_bayesopt.
+Theorem c11_seed_flow_hyperband_hypertune :
+  NoReachableEffect edges effs off_hyperband_hypertune roots_hyperband_hypertune seed_flow allow_seed_flow_gp.
+Proof. by_check. Qed.
+Print Assumptions c11_seed_flow_hyperband_hypertune.
+Theorem c11_seed_flow_hyperband_dyhpo :
+  NoReachableEffect edges effs off_hyperband_dyhpo roots_hyperband_dyhpo seed_flow allow_seed_flow_gp.
+Proof. by_check. Qed.
+Print Assumptions c11_seed_flow_hyperband_dyhpo.
+Theorem c11_seed_flow_synchb_bayesopt :
+  NoReachableEffect edges effs off_synchb_bayesopt roots_synchb_bayesopt seed_flow allow_seed_flow_gp.
+Proof. by_check. Qed.
+Print Assumptions c11_seed_flow_synchb_bayesopt.
+Theorem c11_seed_flow_sim_experiment :
+  NoReachableEffect edges effs off_sim_experiment roots_sim_experiment seed_flow allow_none.
+Proof. by_check. Qed.
+Print Assumptions c11_seed_flow_sim_experiment.
+
+(* ==== what the theorems need from the translator ============================================================ *)
+(* [check_sound] / [reach_b] assume NOTHING about the translator: they are theorems about the generated lists.
+   What ties them to an execution is stated here: if the nodes touched by a concrete execution form a trace that
+   the generated graph JUSTIFIES (every node is an entry point or the target of a live edge from earlier nodes),
+   then every effect site of a function that ran is covered by the theorems above.  The translator's obligation
+   is therefore exactly: "every concrete execution of a configuration has a justified trace".  It is not proved
+   (Python has no formal semantics here); the driver tests it on every run (every executed syne_tune function
+   must lie in the reachable set) and the evidence counts the constructs that could break it. *)
+Theorem c11_justified_trace_is_covered :
+  forall g effs off roots forb allow tr,
+    NoReachableEffect g effs off roots forb allow -> Justified g off roots tr ->
+    forall f e ls nm, In f tr -> In (f, e, ls, nm) effs -> (forall l, In l ls -> ~ In l off) -> forb e = true ->
+      In (nm, e) allow.
+Proof. exact justified_trace_effects. Qed.
+Print Assumptions c11_justified_trace_is_covered.
+
 (* ---- non-vacuity ---------------------------------------------------------------------------------------- *)
 (* the reachable sets are not trivial: the random searcher's draw IS reachable from FIFOScheduler's entry
    points; the ambient default of generate_random_seed (`random_state = np.random`) is reachable exactly when
@@ -374,5 +469,6 @@ Example c11_example_reach :
   check_b edges effs [] roots_fifo_random ambient allow_none = false /\
   check_b edges effs off_fifo_bayesopt roots_fifo_bayesopt ambient allow_none = false /\
   check_b edges effs off_fifo_bayesopt roots_fifo_bayesopt shared_write allow_none = false /\
-  check_b edges effs off_hyperband_random roots_hyperband_random shared_write allow_none = false.
+  check_b edges effs off_hyperband_random roots_hyperband_random shared_write allow_none = false /\
+  check_b edges effs off_fifo_bayesopt roots_fifo_bayesopt seed_flow allow_none = false.
 Proof. vm_compute. repeat split; reflexivity. Qed.
